@@ -79,6 +79,7 @@ type Exec struct {
 	cfg       map[string]string
 	freshN    int
 	lenient   bool
+	totalSteps int
 	headCache map[[2]interface{}]*ssa.BasicBlock
 	feasCache map[string]bool
 	feasHits  int
@@ -333,6 +334,7 @@ func (e *Exec) run(st *State, blk *ssa.BasicBlock, idx int, stops []*ssa.BasicBl
 		for idx < len(blk.Instrs)-1 {
 			ins := blk.Instrs[idx]
 			st.Steps++
+			e.totalSteps++
 			if st.Steps > e.maxSteps {
 				fail("step limit exceeded in %s", fr.Fn)
 			}
